@@ -121,7 +121,17 @@ fn reader(path: &str, id: &str) {
             Ok(Decoded::Publication(i)) => i,
             Ok(Decoded::Blend(w)) => {
                 if violations.len() < 5 {
-                    violations.push(format!("C02 torn-snapshot: reader {} returned words of publications {:?} (call {})", id, blend_origin(&w), calls));
+                    // Indices carry (wrap count << 16 | generation): how far apart are the parts?
+                    let origin = blend_origin(&w);
+                    let pubs: Vec<u64> = origin.iter().flat_map(|s| s.split('/').filter_map(|t| t.parse::<u64>().ok()).collect::<Vec<_>>()).map(|i| (i >> 16) * 32767 + (i & 0xffff) / 2).collect();
+                    let span = pubs.iter().max().unwrap_or(&0) - pubs.iter().min().unwrap_or(&0);
+                    if span >= 30000 {
+                        // the copy spanned a whole cycle of the 16-bit generation (the reader was
+                        // descheduled while ~32767 k publications completed): the known ABA of the protocol
+                        violations.push(format!("C02 generation-aba-blend: reader {} returned words of publications {:?}, {} publications apart: its copy spanned a whole cycle of the 16-bit generation and the re-check met the same value (call {})", id, origin, span, calls));
+                    } else {
+                        violations.push(format!("C02 torn-snapshot: reader {} returned words of publications {:?} (call {})", id, origin, calls));
+                    }
                 }
                 last
             }
